@@ -53,7 +53,10 @@ func corruptStep(rng *rand.Rand, n int, S []int, m int, kind string) (tf.M, bool
 	out := outside(n, S)
 	step := tf.M{"e": "Submit", "m": m, "kind": kind}
 	switch kind {
-	case "scalar", "nonce":
+	case "scalar":
+		step["v"] = rng.Intn(4)
+	case "nonce":
+		step["v"] = rng.Intn(2)
 	case "nonceOther", "signer":
 		if len(others) == 0 {
 			return nil, false
